@@ -9,6 +9,7 @@ import (
 	"hash/crc32"
 	"io"
 	"math"
+	"slices"
 	"sync"
 )
 
@@ -304,12 +305,7 @@ func DecodeEntryFrom(r io.Reader) (*Entry, uint32, error) {
 	entry.Meta = header.Meta
 	entry.ExpiresAt = header.ExpiresAt
 
-	if cap(entry.Key) < keyLen {
-		entry.Key = make([]byte, keyLen)
-	} else {
-		entry.Key = entry.Key[:keyLen]
-	}
-	if _, err := io.ReadFull(hashReader, entry.Key); err != nil {
+	if entry.Key, err = readSized(hashReader, entry.Key, keyLen); err != nil {
 		entry.DecrRef()
 		if errors.Is(err, io.EOF) || errors.Is(err, io.ErrUnexpectedEOF) {
 			return nil, 0, ErrPartialEntry
@@ -317,12 +313,7 @@ func DecodeEntryFrom(r io.Reader) (*Entry, uint32, error) {
 		return nil, 0, err
 	}
 
-	if cap(entry.Value) < valueLen {
-		entry.Value = make([]byte, valueLen)
-	} else {
-		entry.Value = entry.Value[:valueLen]
-	}
-	if _, err := io.ReadFull(hashReader, entry.Value); err != nil {
+	if entry.Value, err = readSized(hashReader, entry.Value, valueLen); err != nil {
 		entry.DecrRef()
 		if errors.Is(err, io.EOF) || errors.Is(err, io.ErrUnexpectedEOF) {
 			return nil, 0, ErrPartialEntry
@@ -345,6 +336,29 @@ func DecodeEntryFrom(r io.Reader) (*Entry, uint32, error) {
 
 	recordLen := uint32(headerBytes) + uint32(keyLen) + uint32(valueLen) + crc32.Size
 	return entry, recordLen, nil
+}
+
+// readSized reads exactly n bytes into dst (reusing its capacity). A declared length beyond the
+// capacity at hand is not trusted with an up-front allocation: the buffer grows geometrically
+// with the bytes that are actually present, so a corrupt header cannot allocate gigabytes.
+func readSized(r io.Reader, dst []byte, n int) ([]byte, error) {
+	if n <= cap(dst) {
+		dst = dst[:n]
+		_, err := io.ReadFull(r, dst)
+		return dst, err
+	}
+	dst = dst[:0]
+	for step := 2 << 10; len(dst) < n; step *= 2 {
+		if step > n-len(dst) {
+			step = n - len(dst)
+		}
+		off := len(dst)
+		dst = slices.Grow(dst, step)[:off+step]
+		if _, err := io.ReadFull(r, dst[off:]); err != nil {
+			return dst[:0], err
+		}
+	}
+	return dst, nil
 }
 
 // EstimateEncodeSize estimates the encoded size of an entry in the WAL/value log.
